@@ -35,3 +35,7 @@ export -f one
 printf '%s\n' "${seeds[@]}" | xargs -P $jobs -I{} bash -c "one {} $tier"
 git -C /verif checkout -q -- evidence 2>/dev/null
 cat $out/*.txt | sort
+# keep the last full sweep (all seeds) as a committed record
+if [ $# -eq 0 ]; then
+  { echo "# last full sweep: $(date -u +%FT%TZ)  tier=$tier  /repo HEAD $(git -C /repo rev-parse --short HEAD)  /verif HEAD $(git -C /verif rev-parse --short HEAD)"; cat $out/*.txt | sort; } > /verif/seeded/SWEEP.txt
+fi
